@@ -217,8 +217,6 @@ Proof.
 Qed.
 
 (* ---------- int(str) on padded, signed digit strings ---------- *)
-(* the blanks int() skips in ASCII text: space, \t \n \v \f \r *)
-Definition blank (c : N) : bool := ((c =? 32) || ((9 <=? c) && (c <=? 13)))%N.
 
 Lemma classify_blank c : blank c = true -> classify c = CSpace.
 Proof.
